@@ -45,7 +45,7 @@ type c01Step struct {
 
 func (s c01Step) String() string {
 	switch s.Kind {
-	case "send", "gateCheck", "gateSendStart":
+	case "send", "gateCheck", "gateSendStart", "slowPoll":
 		return fmt.Sprintf("%s(%+v)", s.Kind, s.Send)
 	case "burst":
 		return fmt.Sprintf("burst(%d|%d)", len(s.Burst[0]), len(s.Burst[1]))
@@ -106,7 +106,7 @@ func genC01(rt *rapid.T, knownPre, knownRace bool, col *Collector) c01Case {
 	total := 0
 	for i := 0; i < n; i++ {
 		l := fmt.Sprintf("s%d", i)
-		kinds := []string{"send", "send", "send", "send", "burst", "poll", "poll", "wait"}
+		kinds := []string{"send", "send", "send", "send", "burst", "poll", "poll", "wait", "slowPoll"}
 		if (c.Carrier == "polling") && !upgraded && c.Rev == 4 || (c.Carrier == "polling" && !upgraded) {
 			kinds = append(kinds, "upgrade")
 		}
@@ -114,7 +114,7 @@ func genC01(rt *rapid.T, knownPre, knownRace bool, col *Collector) c01Case {
 		k := rapid.SampledFrom(kinds).Draw(rt, l+".kind")
 		st := c01Step{Kind: k}
 		switch k {
-		case "send", "gateSendStart":
+		case "send", "gateSendStart", "slowPoll":
 			st.Send = genC01Send(rt, l, 0, knownPre, col)
 			total++
 		case "burst":
@@ -603,6 +603,35 @@ func runC01(c c01Case) (fail string, stats map[string]bool) {
 			if f := doUpgrade(st.To, &s); f != "" {
 				return what + ": " + f, stats
 			}
+		case "slowPoll":
+			// the client's poll travels over a slow connection: the status line of its response takes its time
+			// (the writer blocks in WriteHeader); the message must arrive all the same
+			if cw.cur != "polling" {
+				cw.send(st.Send)
+				Settle()
+				break
+			}
+			if f := cw.pump(); f != "" {
+				return what + ": " + f, stats
+			}
+			hold := make(chan struct{})
+			var slow *Exchange
+			if cw.pc.Poll == nil && len(cw.sr.Closes) == 0 {
+				slow = cw.pc.StartPollMod(func(r *ReqSpec) { r.HoldHeader = hold })
+				Settle()
+			}
+			cw.send(st.Send)
+			Settle()
+			if slow != nil {
+				slow.mu.Lock()
+				held := slow.HeldHeader
+				slow.mu.Unlock()
+				if held {
+					stats["poll-response-on-slow-connection"] = true
+				}
+			}
+			close(hold)
+			Settle()
 		case "gateSendStart":
 			// hold the transport's writer goroutine at its first statement, send more, release
 			site := map[string]string{"polling": "polling.send.start", "websocket": "ws.send.start", "webtransport": "wt.send.start"}[cw.cur]
@@ -742,7 +771,7 @@ func TestC01Outbound(t *testing.T) {
 			rt.Fatalf("%v: %s", clipStr(c.String(), 1200), clipStr(res.Leak, 1500))
 		}
 	})
-	req := []string{"carrier.polling", "carrier.jsonp", "carrier.websocket", "carrier.webtransport", "batch>=2", "payload>=4097", "upgrade.websocket", "upgrade.webtransport", "concurrent-senders", "send-while-writer-parked"}
+	req := []string{"poll-response-on-slow-connection", "carrier.polling", "carrier.jsonp", "carrier.websocket", "carrier.webtransport", "batch>=2", "payload>=4097", "upgrade.websocket", "upgrade.webtransport", "concurrent-senders", "send-while-writer-parked"}
 	if !knownPre {
 		req = append(req, "preencoded")
 	}
